@@ -161,9 +161,9 @@ func modeErr(r *common.Run, fl flavour, level string) {
 	r.Assume("a call that returns nil after an injected error is a violation only if what it acknowledged is not readable after power loss + reopen (the failed operation may have belonged to background work that is retried)")
 	r.Assume("when the process dies (Pebble Fatalf, Tan panic in its sync goroutine) the in-memory file system dies with it: that outcome counts as the loud failure required, durability of earlier acknowledgements is the crash mode's business")
 	scratch := scratchDir(r)
-	nW := r.Pick(2, 16)
+	nW := r.Pick(4, 16)
 	if level == "errkv" {
-		nW = r.Pick(4, 40)
+		nW = r.Pick(8, 40)
 	}
 	cases, all := faultPoints(r, fl, level, nW, 100)
 	reachedAll := true
